@@ -197,8 +197,50 @@ void Groups::evalArguments( int argc, char* argv[]) noexcept( false)
    for (auto ai = alp.begin(); ai != alp.end(); ++ai)
    {
       auto  result = Handler::ArgResult::unknown;
+
+      // a handler that defines exactly this key must get the argument, even if
+      // the key is also an abbreviation of a long argument in a handler that
+      // would be asked before; an abbreviation that matches arguments in more
+      // than one handler is as ambiguous as it is within one handler
+      Handler*  key_handler = nullptr;
+      if ((ai->mElementType == detail::ArgListElement::Type::singleCharArg)
+          || (ai->mElementType == detail::ArgListElement::Type::stringArg))
+      {
+         const detail::ArgumentKey  key(
+            (ai->mElementType == detail::ArgListElement::Type::singleCharArg)
+            ? detail::ArgumentKey( ai->mArgChar)
+            : detail::ArgumentKey( ai->mArgString));
+         for (auto & stored_group : mArgGroups)
+         {
+            auto  ah = stored_group.mpArgHandler.get();
+            if (ah->mArguments.hasArgument( key)
+                || ah->mSubGroupArgs.hasArgument( key))
+            {
+               key_handler = ah;
+               break;   // for
+            } // end if
+         } // end for
+         if (key_handler == nullptr)
+         {
+            for (auto & stored_group : mArgGroups)
+            {
+               auto  ah = stored_group.mpArgHandler.get();
+               if ((ah->mArguments.findArg( key) == nullptr)
+                   && (ah->mSubGroupArgs.findArg( key) == nullptr))
+                  continue;   // for
+               if (key_handler != nullptr)
+                  throw runtime_error( "Long argument abbreviation '"
+                     + ai->mArgString + "' matches more than one argument");
+               key_handler = ah;
+            } // end for
+         } // end if
+      } // end if
+
       for (auto & stored_group : mArgGroups)
       {
+         if ((key_handler != nullptr)
+             && (stored_group.mpArgHandler.get() != key_handler))
+            continue;   // for
          result = stored_group.mpArgHandler->evalSingleArgument( ai, alp.end());
          if (result != Handler::ArgResult::unknown)
          {
